@@ -1764,12 +1764,17 @@ class Mailbox:
                 # sqlite binding to work with a variable number of names.
                 #
                 qms = ",".join(["?"] * len(names_to_delete))
+                # NOTE: No commit here: the sequences that became empty, the
+                #       ones that changed, and the mailbox row itself are one
+                #       transaction. A message that moved from `Seen` (now
+                #       empty) to `unseen` must not be in neither if we get
+                #       killed halfway.
+                #
                 await self.server.db.execute(
                     "DELETE FROM sequences"
                     f"  WHERE mailbox_id=? AND name in ({qms})",
                     (self.id, *(list(names_to_delete))),
                 )
-                await self.server.db.commit()
             for name in new_names:
                 # sequence = ",".join(
                 #     str(x) for x in sorted(self.sequences[name])
